@@ -34,6 +34,8 @@ ALPHABET = [
     "MLST a", "MLST b", "MLST missing", "MLST b/z",
     "T:LIST a", "T:LIST c", "T:LIST b", "T:MLSD a",
     "CWD a", "CWD ..", "CWD b",
+    # names made of shell-pattern characters are names like any other
+    "MKD [a]", "T:LIST [a]", "T:MLSD [a]", "MKD ?", "T:LIST ?", "MKD *", "T:MLSD *", "T:STOR [b]", "T:RETR [b]",
     # an upload in two pieces with a stat of the same file (same control connection) between them
     "M:STOR b|MLST b", "M:APPE b|MLST b", "M:STOR a/x|MLST a/x", "M:STOR new|MLST new",
 ]
